@@ -191,7 +191,7 @@ def next (cc : CC) : Option Char × CC :=
   match nextChar cc with
   | (some c, cc) => (some c, noteChar cc c)
   | (none, cc) =>
-    if cc.inDirectiveLine then (some '\n', { cc with inDirectiveLine := false })
+    if cc.inDirectiveLine then (some '\n', { cc with inDirectiveLine := false, atLineStart := true })
     else (none, cc)
 
 /-- number of bytes a schedule still holds -/
